@@ -39,13 +39,20 @@ META = {
             "gssapi-keyex (stub GSS context; MIC valid / invalid / no context), unknown method, service request, "
             "pipelined bursts (incl. the OpenSSH two-step flow probe + signed request with the key worth only a "
             "partial success both times); the server application's answer for each packet ranges over SUCCESSFUL / "
-            "PARTIALLY_SUCCESSFUL / FAILED (/ InteractiveQuery). Five configurations: shipped dispatch; "
+            "PARTIALLY_SUCCESSFUL / FAILED (/ InteractiveQuery). Six configurations: shipped dispatch; "
             "gssapi-with-mic handlers bound by the harness (reaches the anchored _parse_userauth_gssapi_mic, "
             "which the shipped dispatch cannot: it dies in a TypeError); GSSAPI disabled; no SERVICE_REQUEST "
             "before the first USERAUTH_REQUEST (reduced alphabet, length <=2/3); two user names interleaved into "
             "the multi-step exchanges (challenge/response, probe/signature, partial success/next factor, either user "
             "failing / probing in between; 12/18 packets, length <=4/6; reference model without user pinning): "
-            "every grant must be reported for the user name the application approved. State key = the handler "
+            "every grant must be reported for the user name the application approved. Sixth configuration, dimension "
+            "'key re-exchange as an event of the history': a complete re-exchange begun by the client / by the "
+            "server are two events, placed at every position (before the first request, between requests, between "
+            "probe and signed request, after a partial success, after authentication; 14/24 events, length <=3/5), next "
+            "to publickey requests (ed25519, rsa-sha2-256, ecdsa-256) and gssapi-keyex MICs whose proof is made over "
+            "{the session identifier = FIRST exchange hash, the LATEST exchange hash, another session's id}: after a "
+            "re-exchange the latest exchange hash is no longer this session's identifier and a proof over it must "
+            "not authenticate; state key additionally holds 're-exchange completed'. State key = the handler "
             "fields the server branches on + [hidden-state dimension] every other attribute of the auth handler "
             "object(s) as plain data, so that a handler which remembers anything between packets (an accepted "
             "key, an earlier answer) gets its 'after X' states explored instead of merged.",
@@ -68,7 +75,11 @@ CFGS = {
     # a second user name interleaved into the multi-step exchanges (challenge -> response, probe -> signature,
     # partial success -> next factor): every grant must go to the name the application approved
     "two-users": {"gss": False, "gss_dispatch": "shipped", "pin_user": False},
+    # key re-exchanges (client- / server-initiated, run to completion) as events of the history, and proofs made
+    # over the latest exchange hash instead of the session identifier (= first exchange hash)
+    "rekey": {"gss": True, "gss_dispatch": "shipped"},
 }
+CFG_ORDER = ("shipped", "gss-bound", "gss-off", "no-service-request", "two-users", "rekey")
 CALLBACK_FOR = {
     "none": {"auth_none"}, "password": {"auth_password"}, "publickey": {"auth_publickey"},
     "keyboard-interactive": {"auth_interactive", "auth_interactive_response"},
@@ -132,6 +143,22 @@ def alphabet(tier, cfg):
             evs += [("req", u, SC, "publickey", ed + "valid", "S") for u in (AL, BOB)]
             evs += [("req", AL, SC, "password", "plain", "F"), ("req", BOB, SC, "password", "plain", "P"),
                     ("iresp", "P"), ("iresp", "Q")]
+    elif cfg == "rekey":
+        ed, lh = "ed25519/ssh-ed25519/", A.LATEST_H
+        evs += list(A.REKEY_EVENTS)
+        evs += [("req", AL, SC, "publickey", ed + sv, "S") for sv in ("probe", "valid", lh, "other-session")]
+        evs += [("req", AL, SC, "publickey", ed + lh, "P"), ("req", AL, SC, "publickey", ed + "valid", "P")]
+        evs += [("req", AL, SC, "publickey", "rsa/rsa-sha2-256/" + lh, "S")]
+        evs += [("req", AL, SC, "publickey", "ecdsa-256/ecdsa-sha2-nistp256/" + lh, "S")]
+        evs += [("req", AL, SC, "gssapi-keyex", "ctx/" + q, "S") for q in ("valid", lh)]
+        evs += [("req", AL, SC, "password", "plain", app) for app in "SF"]
+        if tier != "quick":
+            evs += [("req", AL, SC, "publickey", "rsa/rsa-sha2-256/valid", "S")]
+            evs += [("req", AL, SC, "publickey", "ecdsa-256/ecdsa-sha2-nistp256/valid", "S")]
+            evs += [("req", AL, SC, "keyboard-interactive", "-", "Q"), ("iresp", "S")]
+            evs += [("req", AL, SC, "publickey", "rsa/" + alg + "/" + lh, "S") for alg in ("ssh-rsa", "rsa-sha2-512")]
+            evs += [("req", AL, SC, "publickey", ed + "replayed", "S"), ("req", AL, SC, "password", "plain", "P"),
+                    ("req", AL, SC, "gssapi-keyex", "ctx/" + lh, "P"), ("req", AL, SC, "none", "-", "F")]
     elif cfg == "no-service-request":
         ed = "ed25519/ssh-ed25519/"
         evs += [("req", AL, SC, "none", "-", app) for app in "SF"]
@@ -156,8 +183,8 @@ DEAD_PROBES = [("req", AL, SC, "password", "plain", "S"), ("iresp", "S"),
 
 def depth_for(tier, cfg):
     if tier == "quick":
-        return {"shipped": 2, "gss-bound": 4, "gss-off": 2, "no-service-request": 2, "two-users": 4}[cfg]
-    return {"shipped": 14, "gss-bound": 14, "gss-off": 14, "no-service-request": 3, "two-users": 6}[cfg]
+        return {"shipped": 2, "gss-bound": 4, "gss-off": 2, "no-service-request": 2, "two-users": 4, "rekey": 3}[cfg]
+    return {"shipped": 14, "gss-bound": 14, "gss-off": 14, "no-service-request": 3, "two-users": 6, "rekey": 5}[cfg]
 
 
 # canon: merged states have equal futures because the server-side handlers branch only on these
@@ -200,8 +227,15 @@ def canon_two_users(obs):
     return k if k == ("dead",) else k + (challenge_user(obs),)
 
 
+# rekey configuration: the ORACLE depends on whether a re-exchange has completed (is the latest exchange hash
+# still the session identifier?), and so may the server (any code that reads Transport.H); part of the key.
+def canon_rekey(obs):
+    k = canon(obs)
+    return k if k == ("dead",) else k + (obs[-1]["rekeyed"],)
+
+
 def canon_for(cfg):
-    return canon_two_users if cfg == "two-users" else canon
+    return canon_two_users if cfg == "two-users" else canon_rekey if cfg == "rekey" else canon
 
 
 def sub_events(ev):
@@ -213,6 +247,8 @@ def event_class(ev):
     ev = R.tup(ev)
     if ev[0] == "req":
         return "req:%s%s:%s:%s" % ("" if ev[1] == AL else "user=%s:" % ev[1], ev[3], ev[4], ev[5])
+    if A.is_rekey(ev):
+        return "re-exchange:" + ev[1]
     if ev[0] == "burst":
         return "burst(" + ",".join(event_class(x) for x in ev[1]) + ")"
     return ":".join(str(x) for x in ev)
@@ -240,10 +276,20 @@ def judge_factory(cfg):
     def judge(hist, obs, acc):
         m = new_model(cfg)
         v = None
-        for ev in hist:
-            v = m.step(ev)
+        for i, ev in enumerate(hist):
+            # obs[i] = state before hist[i]: had a re-exchange completed when the proof was made?
+            v = A.model_step(m, ev, obs[i]["rekeyed"])
         ev = R.tup(hist[-1])
         prev, o = obs[-2], obs[-1]
+        if A.is_rekey(ev):
+            acc.count("re_exchange_events")
+            if o.get("rekey") == "ok":
+                acc.count("re_exchanges_completed:" + ev[1])
+            elif prev["active"] and prev["client_alive"]:
+                raise RuntimeError("C14 harness: re-exchange on a live connection did not complete: %r after %r"
+                                   % (o.get("rekey"), hist))
+        if prev["rekeyed"] and prev["active"]:
+            acc.count("events_after_a_completed_re_exchange")
         acc.validated += 1
         granted_flag = o["authed"] and not prev["authed"]
         granted_wire = any(t[0] == 52 for t in o["tx"])
@@ -254,7 +300,8 @@ def judge_factory(cfg):
             acc.count("model_agree" if ag else "model_unpredicted" if ag is None else "model_differs")
             if ag is False and DEBUG:
                 acc.count("differs:%s:expect=%s:got=%s" % (v.site, v.expect, got))
-            acc.nt((cfg, event_class(ev), canon(obs[:-1])[1:3] + canon(obs[:-1])[5:], got))
+            acc.nt((cfg, event_class(ev), canon(obs[:-1])[1:3] + canon(obs[:-1])[5:], got) +
+                   ((prev["rekeyed"],) if cfg == "rekey" else ()))
         replay = {"cfg": cfg, "hist": hist}
         keep = True
         subs = sub_events(ev)
@@ -262,8 +309,8 @@ def judge_factory(cfg):
         desync = False
         if prev["active"] and not prev["authed"]:
             m2 = new_model(cfg)
-            for e in hist[:-1]:
-                m2.step(e)
+            for i, e in enumerate(hist[:-1]):
+                A.model_step(m2, e, obs[i]["rekeyed"])
             if (m2.gss is not None) != (prev["handler"] != "AuthHandler") and m2.alive:
                 desync = True
                 acc.count("model_gss_desync")
@@ -308,6 +355,9 @@ def judge_factory(cfg):
             else:
                 acc.count("grants_legit")
                 acc.count("grant_via:" + site)
+                if prev["rekeyed"]:
+                    acc.count("grants_after_re_exchange")
+                    acc.count("grant_after_re_exchange_via:" + site)
                 if o["user"] is None:
                     acc.count("grants_with_no_username(unsolicited-info-response)")
                 if len(acc.samples) < 2:
@@ -382,9 +432,11 @@ def main(tier):
         ["server application answers are scripted per packet", "GSS-API library replaced by a stub context",
          "client side only transports harness-composed packets",
          "one username (alice) except in the two-users configuration; C16 covers the fatal username switch",
+         "a key re-exchange event runs to completion on both sides before the next event; the harness signs over "
+         "the session identifier it recorded after the FIRST exchange",
          "event mode: the server reacts completely to one packet (or one pipelined burst) before the next"])
     summary = {}
-    for cfg in ("shipped", "gss-bound", "gss-off", "no-service-request", "two-users"):
+    for cfg in CFG_ORDER:
         out, acc = A.pbfs(make_run(cfg), make_enabled(tier, cfg), canon_for(cfg), judge_factory(cfg),
                           depth_for(tier, cfg))
         ck.merge(acc)
@@ -395,8 +447,8 @@ def main(tier):
                         "depth_reached": out.max_depth, "states": out.states,
                         "transitions": out.transitions, "frontier_left_at_bound": out.frontier_left,
                         "closed": out.frontier_left == 0, "levels": out.levels}
-        # (no-service-request and two-users are depth-bounded by design, the bound is stated in META)
-        if out.frontier_left and tier == "thorough" and cfg not in ("no-service-request", "two-users"):
+        # (no-service-request, two-users and rekey are depth-bounded by design, the bound is stated in META)
+        if out.frontier_left and tier == "thorough" and cfg not in ("no-service-request", "two-users", "rekey"):
             ck.cap_hit("%s: depth bound %d reached with %d unexpanded states"
                        % (cfg, depth_for(tier, cfg), out.frontier_left))
     ck.extra["bound"] = summary
@@ -405,6 +457,11 @@ def main(tier):
     need = ["grant_via:none", "grant_via:password", "grant_via:keyboard-interactive",
             "grant_via:gssapi-keyex", "refused:sig:other-session", "refused:probe"]
     need += ["grant_via:publickey/" + alg for _, alg in A.KEY_ALGOS_QUICK]
+    # re-exchange dimension: both initiators completed; the genuine proof (over the session identifier) still
+    # authenticates after a re-exchange; a proof over the latest exchange hash is refused there
+    need += ["re_exchanges_completed:client", "re_exchanges_completed:server",
+             "grant_after_re_exchange_via:publickey/ssh-ed25519",
+             "refused:sig:latest-exchange-hash-is-not-the-session-id"]
     missing = [n for n in need if not c.get(n)]
     if missing and not ck.acc.violations:
         raise RuntimeError("C14 positive controls never happened (harness broken?): %r" % missing)
@@ -420,9 +477,9 @@ def replay(rec):
     obs = make_run(cfg)(hist)
     m = new_model(cfg)
     print("configuration:", cfg)
-    for ev, o in zip([None] + hist, obs):
-        v = m.step(ev) if ev is not None else None
-        print("event", ev)
+    for i, (ev, o) in enumerate(zip([None] + hist, obs)):
+        v = A.model_step(m, ev, obs[i - 1]["rekeyed"]) if ev is not None else None
+        print("event", ev, ("-> re-exchange %s" % o.get("rekey")) if "rekey" in o else "")
         print("   reply=%s callbacks=%s authenticated=%s active=%s user=%r fails=%d handler=%s exc=%s"
               % (A.reply_class(o), o["cb"], o["authed"], o["active"], o["user"], o["fails"], o["handler"],
                  o["exc"]))
